@@ -112,5 +112,15 @@ func genC19(repo string) (string, error) {
 	if err := c14Guards(&o, sf, "Storage", "LoadReplicationStatus", "guards_LoadReplicationStatus"); err != nil {
 		return "", err
 	}
+	// Server.ReplicateFileToAllMembers (the FileReplicater behind the interface): no return inside the walk over the members -
+	// every member is offered the file, the first error is reported afterwards
+	svf, err := goast.Load(repo, "server/server.go")
+	if err != nil {
+		return "", err
+	}
+	if err := o.skeleton(svf, "Server", "ReplicateFileToAllMembers", "skel_ReplicateFileToAllMembers",
+		goast.SkelOpt{Conds: true, Calls: set("GetMembers", "replicateFileToMember", "Do")}); err != nil {
+		return "", err
+	}
 	return o.sb.String(), nil
 }
